@@ -16,6 +16,12 @@ RULE = (
     "{a,b,c,z,y} (matching, non-matching, duplicate) -- exhaustive; argument order in the source interleaved at random; stream "
     "with: random templates of nested with blocks (depth<=5), assign, output, macro definitions and calls inside and outside the "
     "blocks, names drawn from a small pool so that shadowing is frequent, plus with-nesting beyond context_depth_limit. "
+    "Deepening round: the with stream also generates for loops, if, break, continue and failing nodes (strict and lax mode) inside "
+    "and around with blocks and macro bodies; stream withexit (60 cases, exhaustive grid: break/continue/suppressed error/normal x outer "
+    "binding x with-depth x iteration) is rendered by the model as well; stream partials (729 cases, exhaustive grid): a partial built from "
+    "two of nine fragments (calls the parent's macro, defines a macro, assigns, outputs, with+calls, break, continue, failing node, redefines "
+    "the parent's macro) reached by include / render / render with arguments, at top level / inside with / inside for; the parent then calls "
+    "both macros and prints the variable. "
     "Non-trivial: bind/call -- the call has a surplus or a default fallback or a keyword overriding a positional or a duplicate "
     "keyword; with -- a with argument shadows a name that is also bound outside, or the block assigns a shadowed name."
 )
@@ -32,13 +38,18 @@ ASSUMPTIONS = [
     "a parameter named args / kwargs hides the surplus list / dict (the parameter binding wins); the surplus theorems are about the Bound "
     "structure and about namespaces whose parameters are not called args / kwargs",
     "builtin names (now, today) and increment/decrement counters are not in the modelled scope chain; generators do not use them",
+    "include / render are modelled for strict mode (in lax mode a partial's own top-level loop goes on after an error); the harness inlines the partial's nodes into the model AST",
+    "for loops are modelled over (1..n) ranges only; forloop drop, limit/offset, loop iteration limits are C06/C13's subject",
 ]
 MANIFEST = {
     "technique": "Lean 4 proof (induction over parameter and argument lists; scope-chain lemmas; functional induction over the render model) "
     "+ exhaustive differential correspondence over signatures x argument lists, random nested with/macro templates",
     "text": "Theorems bind_spec (positional in order, keywords by name override, defaults, else undefined; surplus -> args/kwargs) hold for all "
     "parameter dicts and all argument lists; with_binds / with_shadows / with_transparent / with_scoped hold for every scope chain and every block; "
-    "the models are tied to macro_tag.py / _with.py by the exhaustive signature enumeration and random nested templates.",
+    "with_scoped_on_every_exit: the scope stack is balanced over every node for every way of leaving it (normal, break, continue, error) -- the "
+    "try/finally of RenderContext.extend; include_shares_macros / render_isolates_state / render_hides_macros for macros across templates; "
+    "the models are tied to macro_tag.py / _with.py / for_tag.py / include_tag.py / render_tag.py by the exhaustive signature enumeration, random nested "
+    "templates with interrupts, and the withexit / partials grids.",
     "note": "Trusted: Lean kernel, the hand models, the harness's source<->AST mapping. Filters in argument expressions and non-primitive arguments are out of scope.",
 }
 
@@ -68,6 +79,10 @@ def node_src(n, order_rng=None):
         order = n[4] if len(n) > 4 else list(range(len(parts)))
         parts = [parts[i] for i in order]
         return "{% call " + n[1] + (" " + ", ".join(parts) if parts else "") + " %}"
+    if k == "include":
+        return "{% include '" + n[1] + "' %}"
+    if k == "render":
+        return "{% render '" + n[1] + "'" + "".join(", " + a + ": " + expr_src(e) for a, e in n[2]) + " %}"
     if k == "for":
         return "{% for " + n[1] + " in (1.." + str(n[2]) + ") %}" + nodes_src(n[3]) + "{% endfor %}"
     if k == "ifeq":
@@ -405,6 +420,10 @@ class Fail(Exception):
     name = "FilterArgumentError"
 
 
+class Stray(Exception):
+    name = "LiquidSyntaxError"
+
+
 def ref_render(sc: RefScope, nodes, out: list) -> None:
     """Writes to the shared buffer `out`; break / continue / errors are Python exceptions, and every scope that
     was entered is left again on the way out (that is the property)."""
@@ -456,6 +475,36 @@ def ref_render(sc: RefScope, nodes, out: list) -> None:
             raise Cnt
         elif k == "fail":
             raise Fail
+        elif k == "included":
+            # include: the partial runs in the SAME context (locals and macros shared both ways), under two
+            # namespaces (the tag's arguments, the partial's own) that are gone afterwards; interrupts pass through
+            if sc.base + len(sc.pushed) > sc.limit:
+                raise DepthError
+            if sc.base + len(sc.pushed) + 1 > sc.limit:
+                raise DepthError
+            sc.pushed.insert(0, {})
+            sc.pushed.insert(0, {})
+            try:
+                ref_render(sc, n[1], out)
+            finally:
+                sc.pushed.pop(0)
+                sc.pushed.pop(0)
+        elif k == "isolated":
+            # render: the partial runs in a COPY: no locals, no macros of the caller, arguments + caller's globals;
+            # nothing it assigns or defines comes back; an interrupt reaching its top level is a syntax error
+            ns = {}
+            for a, e in n[1]:
+                ns[a] = sc.ev(e)
+            if sc.depth > sc.limit:
+                raise DepthError
+            inner = RefScope({}, sc.limit)
+            inner.globals = [ns] + sc.globals
+            inner.depth = sc.depth + 1
+            inner.base = 5
+            try:
+                ref_render(inner, n[2], out)
+            except (Brk, Cnt):
+                raise Stray from None
         elif k == "macro":
             sc.macros[n[1]] = (n[2], n[3])
         elif k == "call":
@@ -490,7 +539,7 @@ def ref_template(globals_, nodes, mode="strict"):
     for n in nodes:
         try:
             ref_render(sc, [n], out)
-        except (Brk, Cnt, Fail, DepthError) as e:
+        except (Brk, Cnt, Fail, Stray, DepthError) as e:
             if mode == "strict":
                 return {"err": e.name}
         assert not sc.pushed
@@ -722,5 +771,107 @@ class WithExitStream(Stream):
         return [case["how"], f"depth{case['depth']}"]
 
 
+def inline_partials(nodes, partials):
+    """The model has no template loader: `include` / `render` nodes carry the partial's nodes."""
+    out = []
+    for n in nodes:
+        k = n[0]
+        if k == "include":
+            out.append(["included", inline_partials(partials[n[1]], partials)])
+        elif k == "render":
+            out.append(["isolated", n[2], inline_partials(partials[n[1]], partials)])
+        elif k == "with":
+            out.append(["with", n[1], inline_partials(n[2], partials)])
+        elif k == "macro":
+            out.append(["macro", n[1], n[2], inline_partials(n[3], partials)])
+        elif k in ("for", "ifeq"):
+            out.append([k, n[1], n[2], inline_partials(n[3], partials)])
+        elif k == "call":
+            out.append(n[:4])
+        else:
+            out.append(n)
+    return out
+
+
+class PartialsStream(Stream):
+    """Macros (and assigned variables, interrupts) across templates: `include` renders the partial in the same
+    context, `render` in an isolated copy. Strict mode."""
+
+    name = "partials"
+    exhaustive = True
+
+    FRAGMENTS = {
+        "callf": [["text", "p:"], ["call", "f", [["var", "a"]], []]],
+        "defg": [["macro", "g", [["y", ["lit", "Dy"]]], [["text", "g("], ["out", ["var", "y"]], ["out", ["var", "a"]], ["text", ")"]]]],
+        "assign": [["assign", "a", ["lit", "P"]]],
+        "out": [["text", "a="], ["out", ["var", "a"]], ["text", ";"]],
+        "withcall": [["with", [["a", ["lit", "W2"]]], [["call", "f", [["var", "a"]], []], ["call", "g", [], []]]]],
+        "break": [["text", "b"], ["break"], ["text", "!"]],
+        "continue": [["text", "c"], ["continue"], ["text", "!"]],
+        "fail": [["text", "e"], ["fail"], ["text", "!"]],
+        "redef": [["macro", "f", [["x", None]], [["text", "F2("], ["out", ["var", "x"]], ["text", ")"]]]],
+    }
+
+    def cases(self, ctx):
+        out = []
+        names = list(self.FRAGMENTS)
+        for kind in ("include", "render", "render-args"):
+            for where in ("top", "with", "for"):
+                for f1 in names:
+                    for f2 in names:
+                        out.append({"kind": kind, "where": where, "frags": [f1, f2]})
+        return out
+
+    def build(self, case):
+        partial = []
+        for f in case["frags"]:
+            partial += self.FRAGMENTS[f]
+        if case["kind"] == "include":
+            use = ["include", "p"]
+        else:
+            use = ["render", "p", [["a", ["lit", "R"]]] if case["kind"] == "render-args" else []]
+        inner = [["text", "["], use, ["text", "]"]]
+        if case["where"] == "with":
+            inner = [["with", [["a", ["lit", "W"]]], inner]]
+        elif case["where"] == "for":
+            inner = [["for", "i", 2, [["out", ["var", "i"]]] + inner]]
+        nodes = (
+            [["macro", "f", [["x", None]], [["text", "f("], ["out", ["var", "x"]], ["text", ")"]]], ["assign", "a", ["lit", "A"]]]
+            + inner
+            + [["text", "|"], ["call", "g", [], []], ["call", "f", [["lit", "z"]], []], ["text", "a="], ["out", ["var", "a"]]]
+        )
+        return nodes, {"p": partial}
+
+    def impl(self, case):
+        from liquid import DictLoader, Environment
+
+        nodes, partials = self.build(case)
+        env = Environment(extra=True, loader=DictLoader({k: nodes_src(v) for k, v in partials.items()}))
+        try:
+            return {"ok": env.from_string(nodes_src(nodes)).render(g="G")}
+        except BaseException as e:  # noqa: BLE001
+            if isinstance(e, (KeyboardInterrupt, SystemExit)):
+                raise
+            return {"err": type(e).__name__}
+
+    def line(self, case):
+        nodes, partials = self.build(case)
+        return ["mrender", 30, [["g", "G"]], inline_partials(nodes, partials), "strict"]
+
+    def oracle(self, case, obs):
+        nodes, partials = self.build(case)
+        want = ref_template({"g": "G"}, inline_partials(nodes, partials), "strict")
+        if obs == want:
+            return None
+        kind = "include" if case["kind"] == "include" else "render"
+        return (f"partials|{kind}|{'+'.join(case['frags'])}"[:60], f"{nodes_src(nodes)!r} with p = {nodes_src(partials['p'])!r} rendered {obs}, expected {want}")
+
+    def nontrivial(self, case, obs):
+        return any(f in ("callf", "defg", "withcall", "redef", "break", "continue") for f in case["frags"])
+
+    def tags(self, case, obs):
+        return [case["kind"], case["where"], "ok" if "ok" in obs else "err:" + obs["err"]]
+
+
 def streams(ctx):
-    return [BindStream(), CallStream(), WithStream(), WithExitStream()]
+    return [BindStream(), CallStream(), WithStream(), WithExitStream(), PartialsStream()]
